@@ -281,6 +281,40 @@ def main_c28():
                 c.violation("sexp_to_bytes-differs-from-rust", rec, {"python": out[:400], "rust": rec["legacy"][:400]})
             c.nontrivial("ser", rec["tree"])
             c.count("serializer_cases")
+            # the same tree arriving through every constructor the wheel offers (classic, back-reference and 2026
+            # blobs, cursor and stream parsers), serialised alone, through stream() and embedded in another tree
+            if not rec["legacy"].startswith("ERR:") and len(rec["legacy"]) < 40000:
+                legacy = bytes.fromhex(rec["legacy"])
+                makers = {"from_bytes(classic)": lambda: Program.from_bytes(legacy),
+                          "fromhex(classic)": lambda: Program.fromhex(rec["legacy"]),
+                          "parse(classic)": lambda: Program.parse(io.BytesIO(legacy)),
+                          "from_bytes_with_cursor(classic)": lambda: Program.from_bytes_with_cursor(legacy, 0)[0]}
+                if not rec["backrefs"].startswith("ERR:"):
+                    br = bytes.fromhex(rec["backrefs"])
+                    makers["from_bytes(backrefs)"] = lambda: Program.from_bytes(br)
+                    makers["from_bytes_backrefs"] = lambda: Program.from_bytes_backrefs(br)
+                    if br != legacy:
+                        c.count("compressed_blob_differs_from_classic")
+                if not rec["s2026"].startswith("ERR:"):
+                    s26 = bytes.fromhex(rec["s2026"])
+                    makers["from_bytes(2026)"] = lambda: Program.from_bytes(s26)
+                    makers["from_bytes_2026"] = lambda: Program.from_bytes_2026(s26)
+                for name, mk in makers.items():
+                    try:
+                        pr = mk()
+                        alone = bytes(pr)
+                        f = io.BytesIO()
+                        pr.stream(f)
+                        emb = sexp_to_bytes(Program.to((pr, pr)))
+                        th = pr.tree_hash().hex()
+                    except Exception as e:  # noqa
+                        c.violation("program-constructor-raised", rec, {"constructor": name, "error": repr(e)})
+                        continue
+                    c.count("constructor:" + name)
+                    if alone != legacy or f.getvalue() != legacy or emb != b"\xff" + legacy + legacy or th != rec["tree_hash"]:
+                        c.violation("sexp_to_bytes-differs-from-rust/program-built-by-" + name.split("(")[0], rec,
+                                    {"constructor": name, "bytes": alone.hex()[:300], "stream": f.getvalue().hex()[:300], "embedded": emb.hex()[:300],
+                                     "rust": rec["legacy"][:300], "tree_hash": th, "rust_tree_hash": rec["tree_hash"]})
         elif k == "int":
             c.evaluations += 1
             v = int(rec["value"])
